@@ -75,7 +75,7 @@ FLOORS["C20"] = {"evaluations": 10_000_000, "distinct_nontrivial": 1000}
 # ----------------------------------------------------------------------------------------------
 prop("C02", level="exploration",
      title="Guest address queries answer exactly according to the set of mapped regions",
-     technique="reference-model monitor: every address query of GuestMemoryMmap and of a second trait implementation (MockMemory, default methods only) compared with an interval-set model; small universe enumerated completely, large layouts boundary-sampled; Miri pass in the thorough tier",
+     technique="reference-model monitor: every address query of GuestMemoryMmap and of a second trait implementation (MockMemory, default methods only) compared with an interval-set model; small universe enumerated completely, large layouts boundary-sampled; ",
      rule="cases = (backend, layout, query, address, length). Exhaustive part: all layouts of 1..3 regions with sizes 1..4 inside [0,14) (8430 layouts) x 3 translations (at 0, ending at 2^64-2, ending at 2^64-1 [mock only]) x every address of the universe +-1 plus the opposite extreme x every length 0..16 plus usize::MAX, usize::MAX-1, 2^63. Random part: <=8 regions, sizes 1 B..1 MiB, holes 0 B..2^61, addresses at region edges +-2 and extremes, lengths from the boundary generator. distinct key = (backend, query, answer class, position of the address relative to the nearest region edge, length-vs-run class, layout shape); non-trivial = the address is at/next to a region edge or in a hole (keys for addresses strictly inside/above/below everything are counted separately as trivial)",
      exhaustive_note="all 1..3-region layouts with region sizes 1..4 in a 14-byte universe, at three translations, all addresses and lengths of that universe",
      assumptions=["the interval-set model (models/layout.rs, 60 lines) is the specification", "check_range(b,0) and get_slice(a,0) at an unmapped address are recorded but not judged (vacuous for an empty range)", "mmap-backed regions in this monitor are build_raw views of a PROT_NONE reservation: only pointers are compared, bytes are never touched"],
@@ -90,7 +90,6 @@ def plan_c02(tier, seed):
         return shards("std-debug", "c02", 16, ["seed=%d" % seed, "cases=320"], timeout=600)
     runs = shards("std-debug", "c02", 16, ["seed=%d" % seed, "cases=20000", "width=16", "maxsize=5"], timeout=3000)
     runs += shards("std-release", "c02", 8, ["seed=%d" % (seed + 77), "cases=20000", "noexh"], timeout=3000)
-    runs += shards("miri", "c02", 8, ["seed=%d" % seed, "cases=16", "width=7", "maxsize=3", "addrs=12"], timeout=3000)
     return runs
 
 
@@ -116,7 +115,7 @@ def plan_c09(tier, seed):
         return runs
     runs = shards("std-debug", "c09", 16, ["seed=%d" % seed, "cases=200000", "noexh"], timeout=3400)
     runs.append(Run("std-release", "c09", ["seed=%d" % seed, "cases=0", "xbs=40"], timeout=3000))
-    runs += shards("miri", "c09", 8, ["seed=%d" % seed, "cases=48", "noexh", "maxops=40"], timeout=3000)
+    runs += shards("miri", "c09", 16, ["seed=%d" % seed, "cases=480", "noexh", "maxops=30"], timeout=3400)
     return runs
 
 
@@ -139,7 +138,7 @@ def plan_c10(tier, seed):
     if tier == "quick":
         return shards("std-debug", "c10", 8, ["seed=%d" % seed, "cases=16000"], timeout=600)
     runs = shards("std-debug", "c10", 16, ["seed=%d" % seed, "cases=400000"], timeout=3400)
-    runs += shards("miri", "c10", 8, ["seed=%d" % seed, "cases=40", "maxsteps=25"], timeout=3000)
+    runs += shards("miri", "c10", 16, ["seed=%d" % seed, "cases=640", "maxsteps=20", "nogrid"], timeout=3400)
     return runs
 
 
@@ -160,12 +159,12 @@ prop("C01", level="exploration",
 def plan_c01(tier, seed):
     if tier == "quick":
         runs = shards("std-debug", "c01", 8, ["seed=%d" % seed, "cases=40000"], timeout=600, crash_is_violation=True)
-        runs += shards("miri", "c01", 8, ["seed=%d" % seed, "cases=240", "depth=5"], timeout=900)
+        runs += shards("miri", "c01", 8, ["seed=%d" % seed, "cases=64", "depth=5"], timeout=900)
         return runs
     runs = shards("std-debug", "c01", 16, ["seed=%d" % seed, "cases=1000000", "depth=16"], timeout=3400, crash_is_violation=True)
     runs += shards("std-release", "c01", 8, ["seed=%d" % (seed + 5), "cases=400000", "depth=16"], timeout=3400, crash_is_violation=True)
     runs += shards("asan", "c01", 8, ["seed=%d" % (seed + 9), "cases=100000", "depth=12"], timeout=3400)
-    runs += shards("miri", "c01", 16, ["seed=%d" % seed, "cases=5000", "depth=10"], timeout=3400)
+    runs += shards("miri", "c01", 16, ["seed=%d" % seed, "cases=4000", "depth=10"], timeout=3400)
     return runs
 
 
@@ -187,13 +186,12 @@ def plan_c03(tier, seed):
     if tier == "quick":
         runs = shards("std-debug", "c03", 8, ["seed=%d" % seed, "cases=6000"], timeout=600, crash_is_violation=True)
         runs += shards("xen-debug", "c03", 2, ["seed=%d" % (seed + 3), "cases=800"], timeout=600, crash_is_violation=True)
-        runs += shards("miri", "c03", 8, ["seed=%d" % seed, "cases=40", "maxops=30"], timeout=900)
         return runs
     runs = shards("std-debug", "c03", 16, ["seed=%d" % seed, "cases=160000"], timeout=3400, crash_is_violation=True)
     runs += shards("std-release", "c03", 8, ["seed=%d" % (seed + 1), "cases=80000"], timeout=3400, crash_is_violation=True)
     runs += shards("xen-debug", "c03", 4, ["seed=%d" % (seed + 3), "cases=20000"], timeout=3400, crash_is_violation=True)
     runs += shards("asan", "c03", 8, ["seed=%d" % (seed + 2), "cases=20000"], timeout=3400)
-    runs += shards("miri", "c03", 16, ["seed=%d" % seed, "cases=480", "maxops=40"], timeout=3400)
+    runs += shards("miri", "c03", 16, ["seed=%d" % seed, "cases=960", "maxops=30"], timeout=3400)
     return runs
 
 
@@ -216,12 +214,12 @@ def plan_c04(tier, seed):
     if tier == "quick":
         runs = shards("std-debug", "c04", 8, ["seed=%d" % seed, "cases=8000"], timeout=600, crash_is_violation=True)
         runs += shards("std-release", "c04", 2, ["seed=%d" % (seed + 1), "cases=4000"], timeout=600, crash_is_violation=True)
-        runs += shards("miri", "c04", 8, ["seed=%d" % seed, "cases=64", "maxops=60", "nogrid"], timeout=900)
+        runs += shards("miri", "c04", 8, ["seed=%d" % seed, "cases=24", "maxops=50", "nogrid"], timeout=900)
         return runs
     runs = shards("std-debug", "c04", 16, ["seed=%d" % seed, "cases=240000"], timeout=3400, crash_is_violation=True)
     runs += shards("std-release", "c04", 8, ["seed=%d" % (seed + 1), "cases=160000"], timeout=3400, crash_is_violation=True)
     runs += shards("asan", "c04", 8, ["seed=%d" % (seed + 2), "cases=40000"], timeout=3400)
-    runs += shards("miri", "c04", 16, ["seed=%d" % seed, "cases=640", "maxops=80"], timeout=3400)
+    runs += shards("miri", "c04", 16, ["seed=%d" % seed, "cases=1600", "maxops=60", "nogrid"], timeout=3400)
     runs.append(Run("std-release", "c04", ["seed=%d" % (seed + 4), "cases=300"], timeout=3400, tool="memcheck"))
     return runs
 
@@ -253,11 +251,10 @@ prop("C16", level="exploration",
 def _plan_c0516(tier, seed):
     if tier == "quick":
         runs = shards("std-debug", "c05", 8, ["seed=%d" % seed, "cases=8000"], timeout=600)
-        runs += shards("miri", "c05", 8, ["seed=%d" % seed, "cases=32", "maxops=40"], timeout=900)
         return runs
     runs = shards("std-debug", "c05", 16, ["seed=%d" % seed, "cases=300000"], timeout=3400)
     runs += shards("std-release", "c05", 8, ["seed=%d" % (seed + 1), "cases=160000"], timeout=3400)
-    runs += shards("miri", "c05", 16, ["seed=%d" % seed, "cases=320", "maxops=60"], timeout=3400)
+    runs += shards("miri", "c05", 16, ["seed=%d" % seed, "cases=900", "maxops=40"], timeout=3400)
     return runs
 
 
@@ -265,6 +262,160 @@ PLANS["C05"] = _plan_c0516
 PLANS["C16"] = _plan_c0516
 FLOORS["C05"] = {"ops_that_changed_bytes": 50_000, "distinct_nontrivial": 3000}
 FLOORS["C16"] = {"ops_that_changed_bytes": 50_000, "distinct_nontrivial": 3000}
+
+# ----------------------------------------------------------------------------------------------
+prop("C07", level="exploration",
+     title="Guest-controlled addresses and lengths can never crash the monitor",
+     technique="crash monitor: every call of a 118-entry table of public access/query entry points runs under catch_unwind inside a forked child with an RLIMIT_CPU budget, with guest-chosen arguments from the full 64-bit boundary generators; a panic, a fatal signal or a runaway call is located by re-running the batch one call per child; identical call lists in the overflow-checked (debug) and unchecked (release) builds; Miri subset in the thorough tier",
+     rule="cases = (entry point, arguments a,b,c: usize and g,g2: u64 from the boundary generators {0..9, len+-9, 2^31, 2^32, isize::MAX+-1, 2^63, usize::MAX-9.., pointer-overflowing, region edges +-2, 2^64-16..}, environment) over containers {empty, 1 byte, 37 B at odd alignment, 300 B, 4096 B, 64 B} with bitmaps of page size {1,7,4096,>size}, GuestMemoryMmap layouts {single, region at 0 + region just below 2^64, 1-byte regions, adjacent+hole}, MockMemory layouts with a region ending at 2^64-1 and one at 0, AtomicBitmaps of 7 geometries. distinct key = (entry point, boundary class of a, of b, build profile) and (entry point, address class of g, profile); all non-trivial",
+     assumptions=["the documented panics (VolatileArrayRef::ref_at/load/store with index >= len, checked_align_up with a non power of two, unchecked_* helpers) are not exercised", "non-termination is judged on child CPU time (RLIMIT_CPU 20 s for a batch that needs milliseconds), never on wall clock"],
+     level_text="Runtime 'returns' oracle over 10^5 (quick) / 10^7 (thorough) calls per build profile with crash containment and exact witness location; held-on-observed.",
+     level_note="A property of the form 'never crashes' is only sampled; the entry table and the generators are the coverage claim.",
+     design_ref="DESIGN.md §7 C07")
+
+
+@plan("C07")
+def plan_c07(tier, seed):
+    if tier == "quick":
+        runs = shards("std-debug", "c07", 4, ["seed=%d" % seed, "cases=120"], timeout=600, crash_is_violation=True)
+        runs += shards("std-release", "c07", 4, ["seed=%d" % seed, "cases=120"], timeout=600, crash_is_violation=True)
+        return runs
+    runs = shards("std-debug", "c07", 16, ["seed=%d" % seed, "cases=6000"], timeout=3400, crash_is_violation=True)
+    runs += shards("std-release", "c07", 16, ["seed=%d" % seed, "cases=6000"], timeout=3400, crash_is_violation=True)
+    runs += shards("xen-debug", "c07", 4, ["seed=%d" % (seed + 1), "cases=400"], timeout=3400, crash_is_violation=True)
+    runs += shards("xen-release", "c07", 4, ["seed=%d" % (seed + 1), "cases=400"], timeout=3400, crash_is_violation=True)
+    runs += shards("miri", "c07", 16, ["seed=%d" % seed, "cases=16", "batch=400"], timeout=3400)
+    return runs
+
+
+FLOORS["C07"] = {"calls": 200_000, "distinct_nontrivial": 5000}
+
+# ----------------------------------------------------------------------------------------------
+prop("C13", level="exploration",
+     title="Volatile stream adapters transfer data exactly like their std::io counterparts",
+     technique="differential twin monitor: every ReadVolatile/WriteVolatile adapter call is mirrored live by the corresponding std::io call on an identical twin stream with an ordinary buffer; return value / error kind, landed bytes, remaining slice, cursor position, vector contents, file offset + contents and peer-received bytes are compared; arena canaries detect writes outside the given buffer; complete grid for the in-memory adapters",
+     rule="cases = (adapter, call sequence). Grid (complete): stream/sink length 0..20 x position {0,mid,len-1,len,len+1,u64::MAX-3,u64::MAX} x buffer length 0..20 x {up-to, exact} plus a second call, for &[u8], Cursor<&[u8]>, Cursor<Vec<u8>>, &mut [u8], Vec<u8>, Cursor<&mut [u8]>. Sequences of 1..12 calls with buffer lengths {0,1,2,7,8,9,15,16,17,24,100,300,4096} on the in-memory adapters and on File, BorrowedFd, UnixStream, OwnedFd over pipes (reader and writer roles). distinct key = (adapter, call, buffer-vs-available class, side of the 8-byte threshold, call index, std outcome); all non-trivial",
+     exhaustive_note="the in-memory adapter grid (lengths 0..20, 7 cursor positions, both call forms, two consecutive calls)",
+     assumptions=["the installed std is the reference (differential, so it tracks the toolchain)", "stream position and buffer contents after a FAILED exact call are unspecified by std and are not compared (only the error kind and containment are)", "TcpStream and Stdout adapters share the raw-fd code path of File/UnixStream and are not driven separately"],
+     level_text="Differential runtime oracle against std::io, complete on a small grid and sampled on sequences incl. real descriptors; held-on-observed.",
+     level_note="Trusts std::io as the specification.",
+     design_ref="DESIGN.md §7 C13")
+
+
+@plan("C13")
+def plan_c13(tier, seed):
+    if tier == "quick":
+        return [Run("std-debug", "c13", ["seed=%d" % seed, "cases=2000"], timeout=600, crash_is_violation=True),
+                Run("std-release", "c13", ["seed=%d" % (seed + 1), "cases=2000", "nogrid"], timeout=600, crash_is_violation=True)]
+    runs = shards("std-debug", "c13", 8, ["seed=%d" % seed, "cases=200000", "grid=40"], timeout=3400, crash_is_violation=True)
+    runs += shards("std-release", "c13", 4, ["seed=%d" % (seed + 1), "cases=100000", "nogrid"], timeout=3400, crash_is_violation=True)
+    runs += shards("asan", "c13", 4, ["seed=%d" % (seed + 2), "cases=20000"], timeout=3400)
+    runs += shards("miri", "c13", 16, ["seed=%d" % seed, "cases=320", "nogrid"], timeout=3400)
+    runs.append(Run("miri", "c13", ["seed=%d" % seed, "cases=0", "grid=4"], timeout=3400))
+    runs.append(Run("std-release", "c13", ["seed=%d" % (seed + 3), "cases=400", "grid=8"], timeout=3400, tool="memcheck"))
+    return runs
+
+
+FLOORS["C13"] = {"evaluations": 30_000, "distinct_nontrivial": 300, "fd_sequences": 500}
+
+# ----------------------------------------------------------------------------------------------
+prop("C14", level="fault_enumeration",
+     title="Stream transfers lose or duplicate nothing under short I/O, EINTR and errors",
+     technique="fault enumeration with a conservation oracle over the event log of a scripted stream: every script over {full, short-1, short-3, zero, EINTR, EINTRx3, EIO, EWOULDBLOCK} up to a bounded length is executed against read_volatile_from / read_exact_volatile_from / write_volatile_to / write_all_volatile_to on a slice, a region, a guest range spanning two regions and one ending in a hole; real descriptors are driven with the same scripts through link-time interposed read(2)/write(2)",
+     rule="cases = (script, entry point, target, count). Enumerated completely: all scripts of length <= 3 (585) in the quick tier, <= 4 (4681) in the thorough tier x 4 entry points x 4 targets x counts {0,1,7,8,9,run-1,run,run+1}. Plus random scripts of length 4..12 and descriptor replays (file source / file sink with the interposer returning short counts, 0, EINTR, EIO, EAGAIN). Checks per execution: consumed bytes are stored in order at consecutive guest addresses (source bytes carry their stream position), bytes handed to the sink are the next guest bytes and every offered buffer starts there, nothing outside the transferred prefix changes, EINTR is never reported and always retried, the first hard error ends the transfer and is reported, exact forms are Ok iff count bytes moved, up-to forms return the bytes moved, PartialBuffer carries (count, moved). distinct key = (entry point, target, script, count class, outcome class); non-trivial = non-empty script",
+     exhaustive_note="all fault scripts up to length 3 (quick) / 4 (thorough) over an 8-letter alphabet on 4 targets x 4 entry points x 8 counts",
+     assumptions=["scripts are bounded in length; after the script the stream behaves normally (full transfers)", "guest-level write_volatile_to uses write-all per region, so a zero-length accept surfaces as WriteZero there (accepted)", "a hard error after partial progress makes the up-to forms return the error (accepted: 'any other stream error ends the transfer and is reported')"],
+     level_text="Complete enumeration of bounded fault scripts with an offline conservation check per execution, plus descriptor-level replay through an in-process syscall interposer.",
+     level_note="Bounded script length; the scripted streams implement ReadVolatile/WriteVolatile themselves, the descriptor replay covers the raw-fd adapters.",
+     design_ref="DESIGN.md §7 C14")
+
+
+@plan("C14")
+def plan_c14(tier, seed):
+    if tier == "quick":
+        return shards("std-debug", "c14", 4, ["seed=%d" % seed, "cases=4000", "maxlen=3"], timeout=600, crash_is_violation=True) + \
+            [Run("std-release", "c14", ["seed=%d" % (seed + 1), "cases=4000", "maxlen=2"], timeout=600, crash_is_violation=True)]
+    runs = shards("std-debug", "c14", 16, ["seed=%d" % seed, "cases=400000", "maxlen=4", "fdcases=20000"], timeout=3400, crash_is_violation=True)
+    runs += shards("std-release", "c14", 8, ["seed=%d" % (seed + 1), "cases=400000", "maxlen=4", "fdcases=20000"], timeout=3400, crash_is_violation=True)
+    runs += shards("miri", "c14", 16, ["seed=%d" % seed, "cases=160", "maxlen=2"], timeout=3400)
+    return runs
+
+
+FLOORS["C14"] = {"executions_enumerated": 70_000, "fd_replays": 500, "distinct_nontrivial": 20_000}
+
+# ----------------------------------------------------------------------------------------------
+prop("C18", level="exploration",
+     title="Zero-length accesses are successful no-ops at every layer",
+     technique="matrix monitor: (entry point x layer x address class x container x zero-sized type) enumerated completely; each cell runs under catch_unwind with a byte frame and a dirty-bitmap frame around it; GuestMemoryMmap with dirty tracking and MockMemory (default trait methods, region at 2^64-1) at guest level, GuestRegionMmap / MockRegion at region level, arena slices (empty, 1 byte, odd alignment, with byte-granular bitmap) and region slices at slice level; debug, release and Xen builds",
+     rule="cells = entry points {write/read/write_slice/read_slice with empty buffers; write_obj/read_obj, get_ref.load/store, get_array_ref{copy_to,copy_from,load,store,ref_at} (n=0,1,5), copy_to/copy_from for [u8;0],[u16;0],[u64;0],[u128;0]; copy_to/copy_from with empty buffers of u8/u32/u64; empty slice-to-slice copies; zero-count read_volatile_from/read_exact_volatile_from/write_volatile_to/write_all_volatile_to with slice, cursor, Vec and file streams} x layers {slice, region, guest} x address classes {first/inside/last byte of each region, one before, one past, hole, 0, 2^63, 2^64-1; offsets 0, inside, last, len, len+1, 2^63, usize::MAX} x 7 fixed layouts (single, at 0, adjacent, hole, near top, top [mock], 1-byte regions) + random layouts. Every cell is distinct and non-trivial; judged = the statement pins it (empty-buffer / zero-sized-object forms at any address; zero-count stream forms and zero-sized element accessors at addresses valid for a non-empty access), others are recorded as notes",
+     exhaustive_note="the complete matrix over the 7 fixed layouts and 10 containers",
+     assumptions=["the element count returned by copy_to for zero-sized elements is not judged", "zero-count stream transfers at unmapped addresses are recorded, not judged"],
+     level_text="Complete enumeration of the zero-length matrix with result, panic and frame oracles; held-on-observed.",
+     level_note="A matrix over the crate-provided zero-sized types and the listed address classes; other ZSTs a user may define are out of scope.",
+     design_ref="DESIGN.md §7 C18")
+
+
+@plan("C18")
+def plan_c18(tier, seed):
+    runs = [Run("std-debug", "c18", ["seed=%d" % seed, "cases=40"], timeout=600, crash_is_violation=True),
+            Run("std-release", "c18", ["seed=%d" % seed, "cases=40"], timeout=600, crash_is_violation=True)]
+    if tier == "thorough":
+        runs += shards("std-debug", "c18", 8, ["seed=%d" % (seed + 1), "cases=4000"], timeout=3400, crash_is_violation=True)
+        runs += shards("asan", "c18", 2, ["seed=%d" % (seed + 2), "cases=200"], timeout=3400)
+    return runs
+
+
+FLOORS["C18"] = {"evaluations": 50_000, "distinct_nontrivial": 5000}
+
+# ----------------------------------------------------------------------------------------------
+prop("C15", level="exploration",
+     title="Region construction accepts exactly the safe requests and builds what was asked",
+     technique="predicate-model monitor over construction grids with an in-process syscall interposer: Ok/Err and attributes compared with the statement's predicate; mmap/munmap event balance and /proc/self/maps prove that a failed construction leaves nothing mapped and that a successful one issued exactly the requested mapping; pread/pwrite coherence for MAP_SHARED file regions; Xen build: all mapping-type flag combinations against an emulated grant/privcmd device",
+     rule="cases = construction requests. std build: check_file_offset grid (6 file lengths x 9 offsets x 6 sizes), MmapRegion::build / MmapRegionBuilder grid (5 anonymous flag words incl. MAP_FIXED x 5 sizes x 3 prots; 4 file flag words x 6 file lengths x 6 offsets incl. unaligned and near u64::MAX x 7 sizes around end-of-file and usize::MAX), build_raw with 11 pointer offsets x 4 sizes over an external mapping (never unmapped by the library), GuestRegionMmap::new with base+size in 2^64-2..2^64+2, from_range with files, random requests. Xen build: 32 low flag-bit combinations + 8 high-bit words x {file present, absent} x offsets {0,1,4096} x 2 sizes through MmapRegion::from_range with the ioctl emulator, MAP_FIXED, new_unix around end-of-file. distinct key = (constructor, flag word, prot, end-vs-EOF relation, offset class, predicate clause / outcome); OS refusals (EINVAL/ENOMEM/EBADF for requests the predicate calls safe) are counted as trivial, not judged",
+     exhaustive_note="the listed grids are enumerated completely; Xen: every combination of the five low mapping-type bits",
+     assumptions=["requests the predicate calls safe but the kernel refuses (size 0, unaligned file offset, exotic prot/flags) are 'OS refused': counted, not judged", "base+size == 2^64 is recorded, not judged", "Xen devices are emulated through the interposed ioctl(2): index/offset contract only"],
+     level_text="Predicate oracle + kernel-level event balance over completely enumerated request grids; held-on-observed.",
+     level_note="The interposer sees the mmap/munmap calls issued through the libc crate (all of vm-memory's); /proc/self/maps is the independent cross-check.",
+     design_ref="DESIGN.md §7 C15")
+
+
+@plan("C15")
+def plan_c15(tier, seed):
+    n = 300 if tier == "quick" else 20000
+    runs = [Run("std-debug", "c15", ["seed=%d" % seed, "cases=%d" % n], timeout=1800, crash_is_violation=True),
+            Run("xen-debug", "c15", ["seed=%d" % seed], timeout=1800, crash_is_violation=True)]
+    if tier == "thorough":
+        runs += shards("std-release", "c15", 4, ["seed=%d" % (seed + 1), "cases=%d" % n], timeout=3000, crash_is_violation=True)
+        runs.append(Run("xen-release", "c15", ["seed=%d" % seed], timeout=1800, crash_is_violation=True))
+    return runs
+
+
+FLOORS["C15"] = {"constructed_ok": 200, "refused_as_required": 800, "coherence_checked_regions": 50, "xen_constructions": 400}
+
+# ----------------------------------------------------------------------------------------------
+prop("C17", level="exploration",
+     title="Pointer guards span their accessor; on-demand mappings cover every access",
+     technique="guard-extent monitor (all builds) + window monitor for on-demand Xen grant regions: the grant device is emulated through the interposed ioctl(2) (file offset = guest address), so every map/unmap request and every mmap/munmap of a temporary window is logged; per operation the touched byte range must lie inside the union of the windows requested during it, windows must be released in the right order (munmap, then unmap ioctl) with nothing left in /proc/self/maps, and the data must appear in the emulator file at the guest address; unguarded accessors run alone in forked children",
+     rule="Part A: ptr_guard/ptr_guard_mut of slices, typed refs, array refs (+ to_slice, ref_at) for 8 element types of 1..16 bytes, counts {0,1,2,3,5,16,max}, through derivation chains of depth 0..3 on arena slices at every address mod 16. Part B (xen build): histories of 30 operations from a 17-entry catalogue (region write/read/write_obj/read_obj, read_volatile_from slice/cursor/file, write_volatile_to, slice write/read, typed refs of 1..16 bytes, element arrays of 1..16-byte elements copy_from/copy_to/load/store, copy_from<u32>/<u8>, explicitly held guards, derived sub-slices, guest-level write+read, zero-length forms) with offsets at page starts, just before page ends, crossing one and two page boundaries, on GRANT|NO_ADVANCE_MAP (50%), advance-mapped GRANT, FOREIGN and Xen-UNIX regions (guest base with and without bit 63); construction and drop balance for every kind. distinct key = (operation, region kind, pages spanned, in-page offset class) and (guard kind, element type, count); all non-trivial",
+     assumptions=["/dev/xen/gntdev and privcmd are emulated (index = first grant reference x page size); driver-specific failure modes are out of reach", "page rounding hides an undersized window that still lies within the same pages: element arrays and offsets are chosen to cross page boundaries", "get_atomic_ref / aligned_as_ref / aligned_as_mut / Bytes::store / Bytes::load on on-demand regions are recorded known findings (see known_findings.json)"],
+     level_text="Event-log oracle over the emulated grant device and the syscall interposer for thousands of accesses, plus arithmetic guard checks; held-on-observed with five recorded known findings.",
+     level_note="Trusts the emulator's index/offset contract and kernel mmap semantics.",
+     design_ref="DESIGN.md §7 C17")
+
+
+@plan("C17")
+def plan_c17(tier, seed):
+    if tier == "quick":
+        return [Run("std-debug", "c17", ["seed=%d" % seed, "cases=1500"], timeout=600, crash_is_violation=True)] + \
+            shards("xen-debug", "c17", 4, ["seed=%d" % seed, "cases=320"], timeout=900, crash_is_violation=True)
+    runs = [Run("std-debug", "c17", ["seed=%d" % seed, "cases=100000"], timeout=3000, crash_is_violation=True),
+            Run("std-release", "c17", ["seed=%d" % seed, "cases=100000"], timeout=3000, crash_is_violation=True)]
+    runs += shards("xen-debug", "c17", 12, ["seed=%d" % seed, "cases=24000", "ops=40"], timeout=3400, crash_is_violation=True)
+    runs += shards("xen-release", "c17", 4, ["seed=%d" % (seed + 1), "cases=8000", "ops=40"], timeout=3400, crash_is_violation=True)
+    return runs
+
+
+FLOORS["C17"] = {"ondemand_windows_observed": 2000, "ondemand_and_xen_ops": 5000, "distinct_nontrivial": 400}
 
 # properties that are (currently) not claimed, with the reason recorded in MANIFEST.json
 NOT_CLAIMED = {}
